@@ -306,7 +306,7 @@ theorem absVal_step (s : State) (a : Act) (k : Nat) (hi : Inv s)
   | expire d hids =>
     simp only [step]
     split <;> try rfl
-    unfold expire; split <;> try rfl
+    unfold expireAt; split <;> try rfl
     split <;> try rfl
     exact absVal_expireLoop _ k _ _ _ _
   | count => simp only [step, count]; split <;> rfl
